@@ -458,6 +458,38 @@ def break_guard(ctx):
             ctx.fail("split:break-leaves-main-loop", "loop() did not run for every pass", {"script": src})
 
 
+REBOUND = [
+    # a device name bound twice BEFORE the main loop (found by the pin-level model, W4): the second binding's pins are used without ever being configured
+    ("rebind:button-rebound-before-loop", HEAD + "b = Button(4)\nb = Button(5)\nwhile True:\n    sleep(102)\n"),
+    ("rebind:ultrasonic-rebound-before-loop", HEAD + "mon = SerialMonitor(9600)\nu = Ultrasonic(2, 3)\nmon.write(u.measure_distance())\nu = Ultrasonic(4, 5)\nwhile True:\n    sleep(102)\n"),
+    # controls: the same re-bindings at the top of the loop body are configured
+    ("rebind:button-rebound-in-loop", HEAD + "b = Button(4)\nwhile True:\n    b = Button(5)\n    sleep(102)\n"),
+    ("rebind:led-rebound-before-loop", HEAD + "l = Led(4)\nl.on()\nl = Led(5)\nl.on()\nwhile True:\n    l.toggle()\n"),
+]
+
+
+def rebound_before_loop(ctx):
+    outs = [cxx.transpile(s) for _, s in REBOUND]
+    it = iter(cxx.run_many(ctx, [(cpp, 2, "p 3 0 0 2 2 1000\np 5 0 0 2 2 1000") for cpp, e in outs if cpp is not None]))
+    for (key, src), (cpp, exc) in zip(REBOUND, outs):
+        ctx.case(key, nontrivial=True)
+        if cpp is None:
+            ctx.count("rebound:rejected")
+            continue
+        res = next(it)
+        if res.compile_error or not res.ok:
+            ctx.fail(key, f"sketch does not compile/run: {(res.compile_error or res.stderr)[:200]}", {"script": src})
+            continue
+        conf = set()
+        for l in res.trace:
+            w = l.split(" ")
+            if w[0] == "pm":
+                conf.add(int(w[1]))
+            elif w[0] in ("dw", "aw", "dr", "pulsein") and int(w[1]) not in conf:
+                ctx.fail(key, f"{l!r} although pin {w[1]} has not been configured (configured so far: {sorted(conf)})", {"script": src, "trace": res.trace[:20]})
+                break
+
+
 def run(ctx: Ctx) -> int:
     ctx.prove(["Reduino.Props.C05", "Reduino.Props.C05Pins"])
     common.fresh_import()
@@ -494,6 +526,7 @@ def run(ctx: Ctx) -> int:
     break_guard(ctx)
     lateinit.check(ctx, "split:prologue-order", 40, 400)
     lateinit.check(ctx, "split:value-does-not-persist", 40, 400, passes=3, family=lateinit.persist_scripts)
+    rebound_before_loop(ctx)
     ctx.cov["rule"] = ("random device sets (1-5 devices of 9 kinds on distinct pins + serial) declared before the main loop or (hoistable kinds) at the top of its body, "
                        "uses and marker statements in both phases, N in {0,1,3}; every sketch compiled and run; plus `break` under random nestings of if/elif/else/try/except/for/while/for-else in the main loop; distinct = distinct scripts")
     return ctx.finish(TRUSTED, search=None)
